@@ -18,12 +18,20 @@ pub struct Instant(std::time::Instant);
 #[allow(dead_code)]
 impl Instant {
     pub fn now() -> Self {
+        #[cfg(biscuit_auth_biscuit_rust_verif)]
+        if let Some(t) = verif_clock::virtual_now() {
+            return Self(t);
+        }
         Self(std::time::Instant::now())
     }
     pub fn duration_since(&self, earlier: Instant) -> Duration {
         self.0.duration_since(earlier.0)
     }
     pub fn elapsed(&self) -> Duration {
+        #[cfg(biscuit_auth_biscuit_rust_verif)]
+        if let Some(t) = verif_clock::virtual_now() {
+            return t.duration_since(self.0);
+        }
         self.0.elapsed()
     }
     pub fn checked_add(&self, duration: Duration) -> Option<Self> {
@@ -99,5 +107,46 @@ impl AddAssign<Duration> for Instant {
 impl SubAssign<Duration> for Instant {
     fn sub_assign(&mut self, other: Duration) {
         *self = *self - other;
+    }
+}
+
+/// verification hook (guarded, off by default): a per-thread virtual clock. When a test harness
+/// has enabled it on the current thread, `Instant::now()` returns `base + offset` and only
+/// `advance` moves the offset; otherwise the real clock is used.
+#[cfg(biscuit_auth_biscuit_rust_verif)]
+pub mod verif_clock {
+    use std::cell::Cell;
+    use std::time::Duration;
+
+    thread_local! {
+        static CLOCK: Cell<Option<(std::time::Instant, Duration)>> = Cell::new(None);
+    }
+
+    /// start a virtual clock at offset zero on this thread
+    pub fn enable() {
+        CLOCK.with(|c| c.set(Some((std::time::Instant::now(), Duration::ZERO))));
+    }
+
+    /// back to the real clock on this thread
+    pub fn disable() {
+        CLOCK.with(|c| c.set(None));
+    }
+
+    /// move the virtual clock forward (no effect when disabled)
+    pub fn advance(d: Duration) {
+        CLOCK.with(|c| {
+            if let Some((base, off)) = c.get() {
+                c.set(Some((base, off.saturating_add(d))));
+            }
+        });
+    }
+
+    /// virtual time elapsed since `enable`
+    pub fn elapsed() -> Option<Duration> {
+        CLOCK.with(|c| c.get().map(|(_, off)| off))
+    }
+
+    pub(crate) fn virtual_now() -> Option<std::time::Instant> {
+        CLOCK.with(|c| c.get().and_then(|(base, off)| base.checked_add(off)))
     }
 }
